@@ -22,6 +22,9 @@ Vals == << [n |-> "A1",    t |-> "1.1.1.1",                    v |-> V("", "NOER
            [n |-> "HTTPS", t |-> "NOERROR;HTTPS;1 . alpn=h3",  v |-> V("", "NOERROR", "HTTPS", "1 . alpn=h3")],
            \* a record type without a value parser: the type is kept, the value is not
            [n |-> "NS",    t |-> "NOERROR;NS;ns1.example",     v |-> V("", "NOERROR", "NS", "")],
+           \* two service bindings without parameters that differ in nothing but the target
+           [n |-> "HT1",   t |-> "NOERROR;HTTPS;1 c1.test",    v |-> V("", "NOERROR", "HTTPS", "1 c1.test")],
+           [n |-> "HT2",   t |-> "NOERROR;HTTPS;1 c2.test",    v |-> V("", "NOERROR", "HTTPS", "1 c2.test")],
            [n |-> "EMPTY", t |-> "",                           v |-> Empty] >>
 NV == Len(Vals)
 \* symbol k: value (k-1) \div 4 + 1, important iff bit 0, exception iff bit 1; the empty value only makes sense on exceptions
